@@ -135,6 +135,12 @@ def histories():
     H["subcircuit-connections"] = [A("a", "input"), A("b", "input"), A("t1", "buf"), A("t2", "buf", output=True), ("@add_sub", ("ha", "h0", {"x": "a", "y": "a", "c": "t1", "s": "t2"}), {}),
                                    ("@add_sub", ("ha", "h0", None), {}), ("@add_sub", ("ha", "h1", {"x": "t1", "nope": "b"}), {}), ("@add_sub", ("ha", "h2", {"x": "ghost"}), {}),
                                    ("@add_sub", ("ha", "h3", {"c": "a"}), {}), ("relabel", ({"t1": "tt"},), {}), ("set_type", ("tt", "not"), {}), ("set_type", ("tt", "bb_input"), {}), ("remove_unloaded", (), {})]
+    # a rejected splice is taken back: exactly the instance's own nodes and blackbox records go - not the nodes of the parent whose
+    # names merely start like the instance name (`u_q`, `u_keep`, the pins of a blackbox instance `u_ff`)
+    H["rejected-subcircuit-beside-nodes-that-share-its-prefix"] = [A("clk", "input"), A("d", "input"), A("x", "input"), A("u_q", "buf", output=True), A("u_keep", "not", fanin="x", output=True),
+                                                                  ("@add_blackbox", ("ff", ["CK", "D"], ["Q"], "u_ff", {"CK": "clk", "D": "d", "Q": "u_q"}), {}),
+                                                                  ("@add_sub", ("ha", "u", {"x": "x", "s": "d"}), {}), ("nodes", (), {}), ("fanin", ("u_q",), {}), ("fanout", ("x",), {}),
+                                                                  A("v_keep", "buf", fanin="x"), ("@add_sub", ("withbb", "v", {"o": "d"}), {}), ("nodes", (), {}), ("fanin", ("v_keep",), {})]
     H["copy-isolation"] = [A("a", "input"), A("g", "buf", fanin="a", output=True), ("@copy_then_edit", (), {}), ("set_output", (["g", "ghost"],), {}), ("fanin", ("ghost",), {})]
     H["set-output-on-removed-node"] = [A("a", "input"), A("g1", "buf", fanin="a"), A("g2", "not", fanin="a"), ("remove", ("g1",), {}), ("set_output", (["g2", "g1"],), {}), ("outputs", (), {})]
     return H
